@@ -774,7 +774,9 @@ impl Scenario for C20 {
         }
         for (k, mut c) in cases.into_iter().enumerate() {
             if let Case20::Single { bytes, trail, .. } = &mut c {
-                if wl.chance(1, 40) && bytes.len() >= 4 {
+                // control messages only (T and L bits set): what follows a
+                // data message may change what its fault means
+                if wl.chance(1, 40) && bytes.len() >= 12 && bytes[0] & 0x03 == 0x03 {
                     let declared = u16::from_be_bytes([bytes[2], bytes[3]]) as usize;
                     // only behind a message that ends where it says
                     if declared == bytes.len() {
